@@ -238,10 +238,17 @@ class KMeans(Medoids):
         return means
 
     def fit_fast(self, series, monitor_distances=None):
-        use_c = self.dists_options.use_c
-        self.dists_options.use_c = True
-        result = self.fit(series, use_parallel=True, monitor_distances=monitor_distances)
-        self.dists_options.use_c = use_c
+        # dists_options is a dictionary
+        had_use_c = 'use_c' in self.dists_options
+        use_c = self.dists_options.get('use_c')
+        self.dists_options['use_c'] = True
+        try:
+            result = self.fit(series, use_parallel=True, monitor_distances=monitor_distances)
+        finally:
+            if had_use_c:
+                self.dists_options['use_c'] = use_c
+            else:
+                del self.dists_options['use_c']
         return result
 
     def fit(self, series, use_parallel=True, monitor_distances=None):
